@@ -13,13 +13,20 @@ reflect panics a packet can trigger after the D4/D4b repairs (reflect.ArrayOf si
 non-comparable key type, SetMapIndex with an unhashable dynamic key).  `decode = recover ∘ decodeRaw` is
 edf.Decode with its deferred recover (lib.Recover() is true in the default build).
 
-* termination: `decode` is a total function (Lean), `C16_api_no_panic`: at the API the outcome is a value or an error.
+* termination: `decode` is a total function (Lean); `C16_fuel_stable`: the fuel only bounds the nesting depth — a value
+  or panic answer never changes with more fuel; `C16_api_no_panic` / `C16_api_total`: at the API the outcome is a
+  value or an error.
 * `C16_no_panic_full` (the raw decoder never panics) is refuted by `C16_panic_arrayOf` / `C16_panic_unhashable_key`
-  — both are recovered at the API; `C16_no_panic_partial`: panics are confined to interface-typed positions.
-* allocation: `C16_alloc_full` (linear bound) is refuted by the 9-byte packet of D23 (`C16_alloc_counterexample`,
-  listed finding C16/edf-alloc-array) and by a registered map count (`C16_alloc_counterexample_regmap`).
+  — both are recovered at the API; `C16_no_panic_partial`: panics are confined to interface-typed positions,
+  `C16_panic_sources` locates them.
+* allocation: `C16_alloc_full` (4 KiB per input byte + 64 KiB) is refuted by the 9-byte packet of D23
+  (`C16_alloc_counterexample`, listed finding C16/edf-alloc-array); `C16_alloc_nested` is the quadratic nested-slice
+  witness (D29, listed C16/edf-alloc-nested).  No linear bound is proved for the remaining inputs (the harness
+  checks the bound on every packet of the malformed stream outside the listed regions).
 * re-encoding: `C16_reencode_full` is refuted in the zero-width region (`C16_reencode_counterexample`, the same
-  defect as C11/zero-width-elements); `C16_reencode_partial` holds outside it.
+  defect as C11/zero-width-elements); `C16_reencode_partial` holds outside it for EVERY decoded value (the
+  canonical-form conditions are proved of decoded values: `dec_good`), `C16_reencode_of_good` is the version with
+  `Good` as a hypothesis.
 -/
 namespace ErgoVerif.Props.C16
 open ErgoVerif.Edf ErgoVerif.Generated.Edt ErgoVerif.Props.C11
